@@ -99,6 +99,7 @@ func (w *World) newInterp(s *Solver, opts *ExploreOpts) *Interp {
 		magicInts:   map[string]*Term{},
 		tags:        map[string]string{},
 		spec:        defaultSpec(),
+		refine:      map[string][2]*big.Int{},
 		Stats:       &RunStats{},
 	}
 	in.Cfg.Tier = opts.Tier
@@ -244,7 +245,36 @@ func (w *World) Explore(name string, opts ExploreOpts) *HarnessReport {
 	}
 	var mu sync.Mutex
 	cond := sync.NewCond(&mu)
-	queue := [][]int{{}}
+	// work queues keyed by the first decision (normally the template choice),
+	// served fairly so that a deadline cuts every template equally
+	queues := map[int][][]int{-1: {{}}}
+	served := map[int]int{}
+	qlen := 1
+	push := func(p []int) {
+		k := -1
+		if len(p) > 0 {
+			k = p[0]
+		}
+		queues[k] = append(queues[k], p)
+		qlen++
+	}
+	pop := func() []int {
+		best, bestN := -2, 0
+		for k, q := range queues {
+			if len(q) == 0 {
+				continue
+			}
+			if best == -2 || served[k] < bestN || (served[k] == bestN && k < best) {
+				best, bestN = k, served[k]
+			}
+		}
+		q := queues[best]
+		p := q[len(q)-1]
+		queues[best] = q[:len(q)-1]
+		served[best]++
+		qlen--
+		return p
+	}
 	active := 0
 	stop := false
 	findingKeys := map[string]bool{}
@@ -268,17 +298,16 @@ func (w *World) Explore(name string, opts ExploreOpts) *HarnessReport {
 		}()
 		for {
 			mu.Lock()
-			for len(queue) == 0 && active > 0 && !stop {
+			for qlen == 0 && active > 0 && !stop {
 				cond.Wait()
 			}
-			if stop || (len(queue) == 0 && active == 0) {
+			if stop || (qlen == 0 && active == 0) {
 				mu.Unlock()
 				cond.Broadcast()
 				return
 			}
-			// DFS: take the most recently added prefix
-			prefix := queue[len(queue)-1]
-			queue = queue[:len(queue)-1]
+			// DFS within a template: take the most recently added prefix
+			prefix := pop()
 			active++
 			mu.Unlock()
 
@@ -287,7 +316,9 @@ func (w *World) Explore(name string, opts ExploreOpts) *HarnessReport {
 
 			mu.Lock()
 			active--
-			queue = append(queue, in.Pending...)
+			for _, np := range in.Pending {
+				push(np)
+			}
 			rep.Paths++
 			rep.Decisions += res.Decisions
 			rep.Steps += int64(res.Steps)
@@ -333,9 +364,13 @@ func (w *World) Explore(name string, opts ExploreOpts) *HarnessReport {
 				rep.Sigs[res.Sig]++
 			}
 			if len(rep.Samples) < 6 && (res.End == "done") && res.Asserts > 0 && (rep.Paths%7 == 1 || len(rep.Samples) == 0) {
+				_, sm := in.query()
+				if sm == nil {
+					sm = map[string]*Term{}
+				}
 				rep.Samples = append(rep.Samples, map[string]interface{}{
 					"harness": name, "end": res.End, "decisions": res.Sig, "steps": res.Steps,
-					"inputs": in.CexValues(map[string]*Term{}), "notes": res.Notes,
+					"inputs": in.CexValues(sm), "notes": res.Notes, "path_condition_conjuncts": len(in.pc),
 				})
 			}
 			for _, ev := range res.Events {
@@ -375,11 +410,11 @@ func (w *World) Explore(name string, opts ExploreOpts) *HarnessReport {
 				}
 				rep.Findings = append(rep.Findings, Finding{Harness: name, Kind: ev.Kind, Msg: ev.Msg, Where: ev.Where, Stack: ev.Stack, Draws: in.CexValues(model), Trace: tr, Notes: res.Notes})
 			}
-			if opts.MaxPaths > 0 && rep.Paths >= opts.MaxPaths && (len(queue) > 0 || active > 0) {
+			if opts.MaxPaths > 0 && rep.Paths >= opts.MaxPaths && (qlen > 0 || active > 0) {
 				rep.Incomplete = true
 				stop = true
 			}
-			if !opts.Deadline.IsZero() && time.Now().After(opts.Deadline) && (len(queue) > 0 || active > 0) {
+			if !opts.Deadline.IsZero() && time.Now().After(opts.Deadline) && (qlen > 0 || active > 0) {
 				rep.Incomplete = true
 				stop = true
 			}
